@@ -387,7 +387,7 @@ func c03c(c *Ctx) {
 				flagNeg = true
 			}
 		}
-		emptyCases := containsPrefix(must, "+(builtin:len(phi(") && containsSuffix(must, ") == 0)")
+		emptyCases := containsPrefix(must, "-(0 < builtin:len(phi(")
 		noBody := containsPrefix(must, "+(phi(") && containsSuffix(must, " == -1)")
 		c.Check(flagNeg && emptyCases && noBody, name+"/elide-only-if-nothing-to-do", c.W.Pos(r.Pos()), "the switch is elided only when no case and no default has a body", fmt.Sprintf("the switch is dropped under %v; it may only be dropped when no case is registered, the remaining cases have no body and no default body was processed", must))
 	}
